@@ -12,6 +12,8 @@ import BSModel.Gen.Entities
     c05 trip   <flavour> <fmt> <tree>         the root's children as a forest:
                                               repr=<0|1> # emit=<events> # norm=<forest> # build=<forest> # norm2=<forest> # repr2=<0|1> # dst=<0|1 DoctypeStable>
     c05 top <rootAttr> <chain> <arg> <tbl> <tree>   `decode(formatter=arg)` incl. `formatter_for_name`/`_is_xml`:  D:<cps> | KeyError
+    c05 sor <rootAttr> <chain> <arg|None> <tbl> <pname|N> <cls> <cps>   `string.output_ready(arg)`:  D:<cps> | KeyError
+    c05 doctype <name|N> <pub|N> <sys|N>      `Doctype._string_for_name_and_ids` (tokens: N = None, e = "", else cps)
     c05 subst <cps> | c05 quote <cps>         `substitute_xml`, `quoted_attribute_value`
 
     chain   := - | <k>.<k>…      `known_xml` from the element up to its root: N | T | F
@@ -200,6 +202,15 @@ def handle : List String → String
         | some d => "D:" ++ showL d
         | none => "KeyError"
     | none => "bad-arg"
+  | ["sor", ra, ch, arg, tbl, pn, c, s] =>
+    let a : Option (Option FmtArg) := if arg == "None" then some none else (parseArg arg (parseTbl tbl)).map some
+    match a with
+    | none => "bad-arg"
+    | some a =>
+      match strOutputReady ci (fmtEnv (parseTbl tbl)) (ra == "1") (parseChain ch) a (parsePfx pn) (clsOf c.toNat!) (cps s) with
+      | some d => "D:" ++ showL d
+      | none => "KeyError"
+  | ["doctype", n, pb, sy] => showL (doctypeString (parsePfx n) (parsePfx pb) (parsePfx sy))
   | ["subst", s] => showL (substXml (cps s))
   | ["quote", s] => showL (quoteAttr (cps s))
   | _ => "bad-op"
